@@ -42,6 +42,26 @@ def deep_eq(a, b):
     return a == b
 
 
+def as_graph_value(run):
+    """the observation as a graph *value*: node iteration order dropped, every edge written from its smaller to its larger
+    key (the recorded descriptor pair turned with it), edges sorted.  Used where the caller's way of building the base
+    graph legitimately changes iteration order but must not change the graph."""
+    out = {}
+    for part in ('meta', 'mol'):
+        g = run[part]
+        edges = []
+        for e in g['edges']:
+            a, b = e[0], e[1]
+            rest = list(e[2:])
+            if a > b:
+                a, b = b, a
+                if len(rest) > 1 and rest[1] is not None:
+                    rest[1] = list(reversed(rest[1]))
+            edges.append([a, b] + rest)
+        out[part] = {'nodes': {k: g['nodes'][k] for k in sorted(g['nodes'])}, 'edges': sorted(edges, key=lambda e: (e[0], e[1]))}
+    return out
+
+
 class C12(core.Prop):
     ID = 'C12'
     FUNCTIONS = ['sort_nodes_by_attr', 'set_atom_names_atomistic', 'merge_graphs', 'from_string', 'from_graph', 'from_fragment_dicts',
@@ -173,6 +193,8 @@ class C12(core.Prop):
             self._run_index[0] = 2
             mg = M.read_cgsmiles.read_cgsmiles(inp['base'])
             runs.append(obs_of(*R.from_graph(inp['frag'], mg, last_all_atom=aa).resolve()))
+            # a base graph with the same keys, attributes and edges, built by the caller in another order
+            runs.append(obs_of(*R.from_graph(inp['frag'], pl.permuted_base_graph(M, inp['base'], 'graph_rev'), last_all_atom=aa).resolve()))
             dicts = R.read_fragment_strings([inp['frag']], last_all_atom=aa)
             snap0 = [{k: pl.graph_data(g, keys=pl.NODE_KEYS + ('bonding', 'hcount', 'ez_isomer_class')) for k, g in d.items()} for d in dicts]
             runs.append(obs_of(*R.from_fragment_dicts(inp['base'], dicts, last_all_atom=aa).resolve()))
@@ -199,10 +221,19 @@ class C12(core.Prop):
         runs = o['runs']
         cl = [('accepted', True)]
         first = runs[0]
-        names = ['from_string_again', 'from_graph', 'from_fragment_dicts', 'from_fragment_dicts_shared_again'] + \
-                ['definitions_permuted'] * (len(runs) - 5)
+        names = ['from_string_again', 'from_graph', 'from_graph_built_in_reverse_order', 'from_fragment_dicts',
+                 'from_fragment_dicts_shared_again'] + ['definitions_permuted'] * (len(runs) - 6)
         for nm, r in zip(names, runs[1:]):
-            cl.append(('same_result_' + nm, deep_eq(first, r)))
+            if nm == 'from_graph_built_in_reverse_order':
+                # with shared atoms the surviving copy, and with it the numbering, follows the order in which the caller
+                # inserted the coarse nodes (observed on the pinned tree); the property does not quantify over insertion
+                # orders of a shared-atom description, so that case is not judged
+                # (nor are the templates whose descriptors are ambiguous by design: which of two equally labelled
+                # descriptors is used first follows the edge order of the base graph)
+                if shape['mode'] == 'mol' and not any(len(set(d.get('fragid', []))) > 1 for d in first['mol']['nodes'].values()):
+                    cl.append(('same_result_' + nm, deep_eq(as_graph_value(first), as_graph_value(r))))
+            else:
+                cl.append(('same_result_' + nm, deep_eq(first, r)))
         cl.append(('fragment_library_unmodified', deep_eq(o['snap0'], o['snap1'])))
         cl.append(('default_arguments_unmodified', all(d == {} for grp in o['defaults'] for d in grp)))
         has_shared = bool(shape.get('shared')) or any('!' in str(x) for x in [inp.get('frag')]) and '!' in ''.join(
@@ -217,7 +248,7 @@ class C12(core.Prop):
 
     def replay_extra(self, shape, cinp, clause=None):
         """concrete replay only: the same input resolved in separate interpreter processes under different hash seeds"""
-        if not (clause or '').startswith('same_result'):
+        if clause != 'same_result_from_string_again':     # the only run with its own set-order mode (= another process)
             return []
         import subprocess
         import sys as _sys
